@@ -266,6 +266,7 @@ func (e Engine) Exec(sci interface{}, opt harness.ExecOpts) *harness.Outcome {
 			shared, _ = py.Compile(srcs[0], "<prog>", py.ExecMode, 0, true)
 			sharedSolo, _ = py.Compile(srcs[0], "<prog>", py.ExecMode, 0, true)
 		}
+		isolation.RegisterScenarioModules()
 		type res struct {
 			t []string
 			e string
